@@ -136,6 +136,14 @@ func c15Order(c *Ctx) {
 	r.Check(len(app.Call.Args) == 1 && sx.Of(app.Call.Args[0]).Op == "alloc", "C15-K1", "dhcpv4.newDHCPv4: modifiers receive the packet under construction", c.P.ipos(app), "argument is the local packet", "")
 	// New: xid generated before newDHCPv4
 	nw := c.P.Func(v4pkg + ".New")
+	// New may hand its arguments to a sibling (NewWithContext) that does the work: judge the function that does
+	for hop := 0; nw != nil && hop < 3; hop++ {
+		inner := delegationOf(nw)
+		if inner == nil {
+			break
+		}
+		nw = inner.Call.StaticCallee()
+	}
 	if nw != nil {
 		var gen, mk *ssa.Call
 		allInstrs(nw, func(in ssa.Instruction) {
